@@ -161,6 +161,7 @@ PLANS = {
             S("c12_tworep", 400, 12000),    # two repliers: the connection of the timed retransmission is dropped (scenarios/c12d_tworep.cc)
             S("c12_noise", 600, 18000),     # retransmission while many other time-outs expire in the same instants
             S("c12_mixed", 600, 18000),    # contexts with different resend times on one socket (scenarios/c12b_mixed.cc)
+            S("c12_slowrep", 600, 18000),  # two repliers, connections stay up: a slow one answers after the timed retransmission went to the other (scenarios/c12e_slowrep.cc)
         ],
         "assumptions": [
             "liveness is checked as a bound after the last fault: reconnect back-off + connect completion + transfer "
